@@ -857,6 +857,21 @@ Fixpoint lleqb (a b : list (list basis)) : bool :=
 
 # ------------------------------------------------------------------------------------
 
+SIZE_CAP = 8000     # particles * (M-1) * (N-1)^2: getDeltas' own error estimates build an
+#                     operator of that dimension (0.6 s per call at 5700, 37 s at 33000)
+
+
+def fit(cfg, Ms):
+    """large N with small M / few species and vice versa, so that one call stays ~1 s"""
+    def dim():
+        return cfg["species"] * (cfg["M"] - 1) * (cfg["N"] - 1) ** 2
+    while dim() > SIZE_CAP and cfg["species"] > 1:
+        cfg["species"] -= 1
+    while dim() > SIZE_CAP and cfg["M"] > min(Ms):
+        cfg["M"] = max(m for m in Ms if m < cfg["M"])
+    return cfg
+
+
 def configs(ctx):
     """Configurations of the direct validation.  The factors (basisN, history, degrees, mass,
     grid class, solver re-use) cycle with co-prime periods so that none is aliased with
@@ -880,7 +895,7 @@ def configs(ctx):
                             ("T", rng.choice([85.0, 110.0]))]
                 else:
                     hist = [("pos", 2), ("T", T1 * rng.choice([0.3, 1.3, 7.0]))]
-                out.append(dict(grid="Grid3Scales" if (bb + iN) % 2 == 0 else "Grid",
+                out.append(fit(dict(grid="Grid3Scales" if (bb + iN) % 2 == 0 else "Grid",
                                 M=Ms[(bb + 3 * iN) % len(Ms)], N=N, scales=[T1], hist=hist,
                                 basisM=basisM, basisN=basisN,
                                 mass=MASSES[(bb + 2 * iN) % len(MASSES)],
@@ -889,7 +904,7 @@ def configs(ctx):
                                 rebackground=((7 * k) % 5 in (1, 3)),
                                 degA=2 * N - 3 if (bb // 2 + iN) % 2 == 0 else 2,
                                 degB=2 * (N - 1) - 3 if (bb + iN // 2) % 2 == 0 else 2,
-                                v=rng.choice([-0.55, -0.3, 0.2, 0.6, 0.9])))
+                                v=rng.choice([-0.55, -0.3, 0.2, 0.6, 0.9])), Ms))
     # the finite-difference solver production uses for its error estimate (Cardinal only)
     for N, mass in ((5, "halfwall"), (7, "profile")):
         out.append(dict(grid="Grid3Scales", M=6, N=N, scales=[100.0], hist=[("pos", 1)],
@@ -904,7 +919,7 @@ def configs(ctx):
             for _ in range(rng.randint(0, 3)):
                 hist.append(rng.choice([("T", rng.choice([0.3, 2.0, 7.0]) * T1),
                                         ("pos", rng.randint(1, 4))]))
-            out.append(dict(grid=rng.choice(["Grid", "Grid3Scales", "Grid3Scales"]),
+            out.append(fit(dict(grid=rng.choice(["Grid", "Grid3Scales", "Grid3Scales"]),
                             M=rng.choice(Ms), N=N, scales=[T1], hist=hist,
                             basisM=rng.choice(["Cardinal", "Chebyshev"]),
                             basisN=rng.choice(["Cardinal", "Chebyshev"]),
@@ -912,7 +927,7 @@ def configs(ctx):
                             species=rng.randint(1, 5), rebackground=rng.random() < 0.5,
                             degA=rng.randint(0, 2 * N - 3),
                             degB=rng.randint(0, max(0, 2 * (N - 1) - 3)),
-                            v=rng.choice([-0.9, -0.55, 0.1, 0.6, 0.95])))
+                            v=rng.choice([-0.9, -0.55, 0.1, 0.6, 0.95])), Ms))
     return out
 
 
